@@ -1,6 +1,6 @@
 From Coq Require Import ZArith List Bool Reals Lra.
 From Flocq Require Import Core BinarySingleNaN.
-Require Import GV.FloatBase GV.FloatLemmas GV.AngleM GV.AngleProofs GV.GeonumM GV.GeonumProofs GV.TraitsM GV.NewProofs GV.CtorProofs GV.ClosureProofs GV.PiBounds GV.TrigProofs GV.DotValue.
+Require Import GV.FloatBase GV.FloatLemmas GV.AngleM GV.AngleProofs GV.GeonumM GV.GeonumProofs GV.TraitsM GV.NewProofs GV.CtorProofs GV.ClosureProofs GV.PiBounds GV.TrigProofs GV.DotValue GV.DistValue GV.DirProofs GV.SymProofs.
 Open Scope R_scope.
 Require Import GV.Properties.C10.
 Check C10_wedge : forall (L : libm) a b,
@@ -34,3 +34,9 @@ Check C10_sin_value : forall (L : libm) (u : R) a b, sin_acc L u ->
   let s := sinF L (grade_angle (geometric_sub b a)) in
   fin s /\ Rabs (R_ s - sin (dir b - dir a)) <= u + 10001 / 100000000000000.
 Print Assumptions C10_sin_value.
+Check C10_swap_magnitude : forall (L : libm) (u : R) a b, sin_acc L u -> u <= / 1000 ->
+  canonp (rem (ang a)) -> canonp (rem (ang b)) -> (0 <= blade (ang a))%Z -> (0 <= blade (ang b))%Z ->
+  fin (mag (wedge L a b)) -> fin (mag (wedge L b a)) ->
+  Rabs (R_ (mag (wedge L a b)) - R_ (mag (wedge L b a)))
+    <= 2 * (Rabs (R_ (mag a) * R_ (mag b)) * (u + 10002 / 100000000000000) + bpow radix2 (-1073)).
+Print Assumptions C10_swap_magnitude.
